@@ -20,6 +20,9 @@ def oracle(log):
         if ln.startswith('#replay-end'):
             expect = None
             continue
+        if ln.startswith('marker_order_violation'):
+            msgs.append('the comparison operators of two live markers contradict the allocation order: ' + ln[len('marker_order_violation '):])
+            continue
         parts = ln.split('|')
         head = parts[0]
         if '=' not in head:
